@@ -97,6 +97,105 @@ impl Dec<'_> {
 // `wrapped`: `x` is declared globally and the decoded statements run inside
 // a function (so most reads succeed and declarations shadow); otherwise `x`
 // starts undeclared at the top level.
+// Wraps `body` in `k` nested scopes of mixed kinds (block, branch, one-turn
+// loop, named function called at once, closure called at once).
+fn nest(mut body: Vec<Stmt>, k: usize, seed: usize) -> Vec<Stmt> {
+    for level in 0..k {
+        body = match (seed + level * 3 + level / 2) % 5 {
+            0 => vec![block(body)],
+            1 => vec![if_(boolean(true), body, None)],
+            2 => vec![for_(var("_"), list(vec![int(1)]), body)],
+            3 => { let n = format!("lv{level}"); vec![fn_decl(&n, vec![], false, body), expr_stmt(call(var(&n), vec![]))] },
+            _ => vec![expr_stmt(call(func(vec![], false, body), vec![]))],
+        };
+    }
+    body
+}
+
+// The decoded statements at the bottom of `k` nested scopes, `x` and `f`
+// declared globally.
+fn decode_deep(digits: &[u8], k: usize, seed: usize) -> Prog {
+    let mut d = Dec{digits, pos: 0, k: 0, fns: 0};
+    let mut body = vec![];
+    while d.pos < digits.len() {
+        if let Some(s) = d.stmt(2) {
+            body.extend(s);
+        }
+    }
+    body.push(sdmodel::ast::print(var("x")));
+    let f0 = declare(var("f"), func(vec![], false, vec![sdmodel::ast::print(string("f0"))]));
+    let mut stmts = vec![declare(var("x"), int(5)), f0];
+    stmts.extend(nest(body, k, seed));
+    stmts.push(sdmodel::ast::print(var("x")));
+    Prog::new(stmts)
+}
+
+// The pattern behind a stale resolution: use a name that resolves outward,
+// make a closure that uses it, declare the name locally, call the closure —
+// every combination of the four steps, at every nesting depth 0..12.
+fn resolution_templates(ctx: &Ctx) {
+    let uses: Vec<Option<Stmt>> = vec![None, Some(sdmodel::ast::print(var("x"))), Some(op_assign(var("x"), Op::Sum, int(1))), Some(assign(var("x"), int(7)))];
+    let bodies: Vec<Stmt> = vec![sdmodel::ast::print(var("x")), op_assign(var("x"), Op::Sum, int(100)), assign(var("x"), int(40)), ret(var("x"))];
+    let mut progs = vec![];
+    for k in 0..=12usize {
+        for seed in 0..5usize {
+            if k > 0 && k < 6 && seed > 1 {
+                continue;
+            }
+            for (ui, u) in uses.iter().enumerate() {
+                for (bi, b) in bodies.iter().enumerate() {
+                    for mk in 0..3usize {
+                        for dk in 0..4usize {
+                            let mut body = vec![];
+                            if let Some(u) = u {
+                                body.push(u.clone());
+                            }
+                            let mut fb = vec![b.clone()];
+                            if bi != 3 {
+                                fb.push(ret(var("x")));
+                            }
+                            match mk {
+                                0 => body.push(fn_decl("g", vec![], false, fb)),
+                                1 => body.push(declare(var("g"), func(vec![], false, fb))),
+                                _ => {
+                                    body.push(fn_decl("mkg", vec![], false, vec![ret(func(vec![], false, fb))]));
+                                    body.push(declare(var("g"), call(var("mkg"), vec![])));
+                                },
+                            }
+                            let calls = vec![sdmodel::ast::print(call(var("g"), vec![])), sdmodel::ast::print(var("x")), sdmodel::ast::print(call(var("g"), vec![]))];
+                            match dk {
+                                0 => { body.extend(calls); },
+                                1 => { body.push(declare(var("x"), int(10))); body.extend(calls); },
+                                2 => { body.push(for_(list(vec![var("_"), var("x")]), list(vec![int(20), int(21)]), calls)); },
+                                _ => { body.push(expr_stmt(call(func(vec![var("x")], false, calls), vec![int(30)]))); },
+                            }
+                            body.push(sdmodel::ast::print(var("x")));
+                            let mut stmts = vec![declare(var("x"), int(5))];
+                            stmts.extend(nest(body, k, seed));
+                            stmts.push(sdmodel::ast::print(var("x")));
+                            progs.push((Prog::new(stmts), format!("depth {k}, use {ui}, closure body {bi}, closure made by {mk}, local declaration {dk}")));
+                        }
+                    }
+                }
+            }
+        }
+    }
+    progs.par_iter().for_each(|(prog, note)| {
+        if ctx.stopped() {
+            return;
+        }
+        let printed = print::print_canonical(prog);
+        let rr = interp::run(prog);
+        let expect = match ref_expect(&printed, &rr, DiagLevel::None) {
+            Some(e) => e,
+            None => { ctx.exclude("reference discards"); return; },
+        };
+        ctx.label("resolution template");
+        let case = Case{property: "C04".into(), kind: "resolution_template".into(), srcs: vec![printed.src.into_bytes()], pred: Pred::Expect(expect), note: note.clone()};
+        ctx.judge(&case, true, Via::Fast, None);
+    });
+}
+
 fn decode(digits: &[u8], wrapped: bool) -> Prog {
     let mut d = Dec{digits, pos: 0, k: 0, fns: 0};
     let mut body = vec![];
@@ -133,8 +232,15 @@ fn enumerate(ctx: &Ctx, len: usize, sample_every: u64) {
             digits.push((c % BASE as u64) as u8);
             c /= BASE as u64;
         }
-        for wrapped in [false, true] {
-        let prog = decode(&digits, wrapped);
+        for mode in 0..3usize {
+        // Mode 2: the same statements under 7..12 nested scopes (all strings
+        // up to length 3, a quarter of the longer ones).
+        if mode == 2 && len > 3 && code % 4 != ctx.seed % 4 {
+            continue;
+        }
+        let deep_k = 7 + (code as usize * 7 + len) % 6;
+        let prog = if mode == 2 { decode_deep(&digits, deep_k, code as usize) } else { decode(&digits, mode == 1) };
+        if mode == 2 { ctx.label("scope operations under 7..12 nested scopes"); }
         let printed = print::print_canonical(&prog);
         if !seen.lock().unwrap().insert(fnv(printed.src.as_bytes())) {
             continue;
@@ -249,7 +355,7 @@ fn scoping_cfg() -> gen::GenCfg {
 }
 
 pub fn run(ctx: &Ctx) {
-    ctx.set_rule("(a) every digit string of length <= N over a 13-symbol scope-operation alphabet on one variable and one function name {read, declare fresh constant, assign fresh constant, += 1, call f, block, if, two-iteration for, fn f, f = closure, f = closure returned by a maker with its own x, self-recursive function with fuel, call with a parameter of the same name} with bodies drawn from the same alphabet to depth 2 (quick: N = 4 complete, N = 5 sampled; thorough: N = 6 complete), (b) random larger programs with 60% shadowing and many closures, (c) renaming every occurrence of one generated identifier to an unused name; oracle: (a)(b) the reference interpreter on stdout and success/failure, (c) identical stdout and status. Non-trivial = the case distinguishes at least one of the wrong semantics dynamic scoping / capture by value / one frame per function / frame shared by iterations / assignment declares / declaration assigns to an outer variable (counts per variant under labels); distinct = distinct source texts");
+    ctx.set_rule("(a) every digit string of length <= N over a 13-symbol scope-operation alphabet on one variable and one function name {read, declare fresh constant, assign fresh constant, += 1, call f, block, if, two-iteration for, fn f, f = closure, f = closure returned by a maker with its own x, self-recursive function with fuel, call with a parameter of the same name} with bodies drawn from the same alphabet to depth 2, at top level, inside a function and at the bottom of 7..12 nested scopes of mixed kinds; the use / closure / local declaration / call pattern in all 192 combinations at nesting depth 0..12 (quick: N = 4 complete, N = 5 sampled; thorough: N = 6 complete), (b) random larger programs with 60% shadowing and many closures, (c) renaming every occurrence of one generated identifier to an unused name; oracle: (a)(b) the reference interpreter on stdout and success/failure, (c) identical stdout and status. Non-trivial = the case distinguishes at least one of the wrong semantics dynamic scoping / capture by value / one frame per function / frame shared by iterations / assignment declares / declaration assigns to an outer variable (counts per variant under labels); distinct = distinct source texts");
     ctx.replay_corpus(None);
     for len in 1..=4 {
         enumerate(ctx, len, 1);
@@ -262,12 +368,18 @@ pub fn run(ctx: &Ctx) {
         enumerate(ctx, 6, 1);
         ctx.mark_exhaustive("all scope-operation digit strings of length 5 and 6");
     }
+    resolution_templates(ctx);
     // (b) random programs, scoping profile.
     let cfg = scoping_cfg();
+    let mut big = gen::GenCfg::big();
+    big.shadow = 60;
+    big.w_closure = 6;
+    big.w_idiom = 10;
     let n = ctx.n(25_000, 1_000_000);
     let via = if ctx.tier == Tier::Quick { Via::Cli } else { Via::Fast };
     ctx.proptest_tapes("scoping_random", n, 700, via, None, |t| {
-        let (case, rr, prog, _) = crate::props::c01::build_case("C04", "random", t, &cfg, 0, ctx, DiagLevel::None)?;
+        let which = if t.chance(1, 6) { ctx.label("big profile"); &big } else { &cfg };
+        let (case, rr, prog, _) = crate::props::c01::build_case("C04", "random", t, which, 0, ctx, DiagLevel::None)?;
         let nd = if t.chance(1, 3) { count_variants(ctx, &prog, &rr, &SCOPE_VARIANTS) } else { 0 };
         Some((case, nd > 0))
     });
